@@ -26,6 +26,9 @@ TRACE_PLANS = {
             ("solve:base,locks,excl,direct", 100, 2000, "perm,renum,hints,async", True)],
     "C03": [("solve:midconflict,conflict", 260, 4000, "hints", True),
             ("solve:cyclic,locks,excl,unknown", 150, 2500, "hints", True)],
+    "C04": [("solve:hintexcl,selfcons,softlone", 250, 6000, "", False),
+            ("solve:cyclic,excl,locks,unknown,soft,softhints", 120, 4000, "hints", False),
+            ("solve:midconflict,base", 120, 4000, "asynchints", False)],
     "C05": [("solve:midconflict,conflict,direct", 250, 4000, "", True),
             ("solve:base,cyclic", 200, 3000, "hints", True)],
     "C07": [("solve:clean", 500, 8000, "hints,async,perm", False)],
@@ -88,8 +91,9 @@ def samples_from(traces, limit=3):
     return out
 
 
-def trace_check(prop, tier, seed, plans, t0, extra_cov=None, jobs=12):
-    exe = vlib.build_harness("release")
+def trace_check(prop, tier, seed, plans, t0, extra_cov=None, jobs=12, build_profiles=("release",)):
+    exes = [vlib.build_harness(bp) for bp in build_profiles]
+    exe = exes[0]
     wd = vlib.fresh_dir(os.path.join(vlib.WORK, prop))
     case_files = []
     first_id = 1
@@ -104,6 +108,23 @@ def trace_check(prop, tier, seed, plans, t0, extra_cov=None, jobs=12):
         case_files += vlib.split_file(allc, nsh, wd, f"plan{pi}")
         os.remove(allc)
     res = vlib.run_and_validate(exe, case_files, prop, jobs=jobs)
+    for bp, other in list(zip(build_profiles, exes))[1:]:
+        # the same cases again in another build profile (debug assertions on)
+        copies = []
+        for c in case_files:
+            c2 = c[:-6] + "." + bp + ".cases"
+            import shutil
+            shutil.copyfile(c, c2)
+            copies.append(c2)
+        r2 = vlib.run_and_validate(other, copies, prop + "-" + bp, jobs=jobs)
+        res.fails += r2.fails
+        res.cover.update({k + "@" + bp: v for k, v in r2.cover.items()})
+        res.runs += r2.runs
+        res.states += r2.states
+        res.transitions += r2.transitions
+        total_cases += 0
+    extra_cov = dict(extra_cov or {})
+    extra_cov["build_profiles"] = list(build_profiles)
     return finish_trace_check(prop, tier, seed, res, t0, total_cases, extra_cov)
 
 
@@ -132,6 +153,12 @@ def finish_trace_check(prop, tier, seed, res, t0, total_cases, extra_cov=None, e
     by_rule = {}
     for f in others:
         by_rule[f["rule"]] = by_rule.get(f["rule"], 0) + 1
+    if os.environ.get("VERIF_DEBUG"):
+        seen = set()
+        for f in others:
+            if f["rule"] not in seen:
+                seen.add(f["rule"])
+                log("  debug replay:", vlib.write_replay("_other", f))
     if by_rule:
         log(f"[{prop}] rule failures owned by other properties (not reported here): {by_rule}")
     nviol = len(violations) + (len(extra_violations) if extra_violations else 0)
